@@ -172,6 +172,10 @@ func (s *Service) proposeBlock(ctx context.Context,
 	}
 
 	if signedProposal.Blinded {
+		if auctionResults == nil {
+			// There is no auction (or it failed), so no relay can unblind the proposal.
+			return errors.New("blinded proposal obtained without auction results; no relays to unblind the block")
+		}
 		// Select the relays to unblind the proposal.
 		providers := make([]builderclient.UnblindedProposalProvider, 0, len(auctionResults.AllProviders))
 		unblindingCandidates := auctionResults.Providers
@@ -401,6 +405,10 @@ func (s *Service) unblindProposal(ctx context.Context,
 			}
 			if signedProposalResponse == nil {
 				log.Debug().Msg("No signed block received")
+				return
+			}
+			if signedProposalResponse.Data == nil {
+				log.Debug().Msg("Relay response contains no unblinded block")
 				return
 			}
 
